@@ -256,7 +256,7 @@ def check_seek(case):
 
 
 # ---------------------------------------------------------------------------------------------
-TRANSIENT = ["SlowDown", "InternalError", "503", "RequestTimeout", "ServiceUnavailable", "botocore", "oserror", "conn_closed", "read_timeout", "response_streaming", "incomplete_read", "http_client"]
+TRANSIENT = ["SlowDown", "InternalError", "503", "RequestTimeout", "ServiceUnavailable", "OperationAborted", "TooManyRequests", "Throttling", "botocore", "oserror", "conn_closed", "read_timeout", "response_streaming", "incomplete_read", "http_client"]
 PERMANENT = ["AccessDenied", "InvalidAccessKeyId", "NoSuchBucket", "403", "SignatureDoesNotMatch"]
 FOPS = ["read_file", "write_file", "exists_present", "exists_absent", "list_files", "delete_file", "get_size", "get_modified_time", "open_file",
         "read_file_with_etag", "write_file_cas", "range_read", "open_seekable"]
@@ -281,6 +281,9 @@ def fault_case(draw):
     return {"kind": "fault", "op": op, "plan": plan, "faults": kinds, "pos": pos, "where": where}
 
 
+_STATUS_4XX = {"RequestTimeout": 400, "OperationAborted": 409, "TooManyRequests": 429, "Throttling": 400}
+
+
 def _mk_exc(kind):
     if kind == "botocore":
         return EndpointConnectionError(endpoint_url="http://x")
@@ -299,7 +302,8 @@ def _mk_exc(kind):
         return BE.IncompleteReadError(actual_bytes=1, expected_bytes=10)
     if kind == "http_client":
         return BE.HTTPClientError(error="transport")
-    return client_error(kind, "Op", 503 if kind not in PERMANENT else 403)
+    # transient conditions S3 reports with a 4xx status keep that status (RequestTimeout 400, OperationAborted 409 "try again", throttling 429/400)
+    return client_error(kind, "Op", _STATUS_4XX.get(kind, 503) if kind not in PERMANENT else 403)
 
 
 def _call(s3, fake, op):
